@@ -385,7 +385,13 @@ func unhex(c byte) (byte, bool) {
 // The returned AuthReq lists every deviation from the expected request in Problems; a code is issued
 // only when there is none of the fatal kind.
 func (p *IdP) Authorize(loc string, browser int) *AuthReq {
-	ar := p.parseAuth(loc)
+	return p.AuthorizeAs(loc, browser, p.RedirectURI, nil)
+}
+
+// AuthorizeAs judges the request against the registration of one particular filter: several chains may share one
+// client registration (one client id, one secret) with one redirect URI each and scopes of their own.
+func (p *IdP) AuthorizeAs(loc string, browser int, redirectURI string, scopes []string) *AuthReq {
+	ar := p.parseAuthAs(loc, redirectURI, scopes)
 	p.mu.Lock()
 	defer p.mu.Unlock()
 	ar.Seq, ar.Browser = p.w.Sim.Tick(), browser
@@ -401,7 +407,11 @@ func (p *IdP) Authorize(loc string, browser int) *AuthReq {
 }
 
 // parseAuth is the strict, independent parse of an authorization request (no side effects).
-func (p *IdP) parseAuth(loc string) *AuthReq {
+func (p *IdP) parseAuth(loc string) *AuthReq { return p.parseAuthAs(loc, p.RedirectURI, nil) }
+
+// parseAuthAs: redirectURI is the redirect URI the sending filter is configured with; scopes (when not nil) the scopes
+// it is configured with: the request must carry exactly those plus openid.
+func (p *IdP) parseAuthAs(loc string, redirectURI string, scopes []string) *AuthReq {
 	ar := &AuthReq{Raw: loc}
 	want := p.AuthorizeURL()
 	wantBase, wantQuery, _ := strings.Cut(want, "?")
@@ -450,7 +460,7 @@ func (p *IdP) parseAuth(loc string) *AuthReq {
 	expect := map[string]string{
 		"response_type":         "code",
 		"client_id":             p.ClientID,
-		"redirect_uri":          p.RedirectURI,
+		"redirect_uri":          redirectURI,
 		"code_challenge_method": "S256",
 	}
 	for _, k := range []string{"response_type", "client_id", "redirect_uri", "code_challenge_method"} {
@@ -471,6 +481,26 @@ func (p *IdP) parseAuth(loc string) *AuthReq {
 	}
 	if !hasOpenID {
 		ar.Problems = append(ar.Problems, "scope lacks openid")
+	}
+	if scopes != nil && hasOpenID {
+		want := strings.Fields(strings.Join(scopes, " "))
+		for _, s := range want {
+			if s == "openid" {
+				want = nil
+				break
+			}
+		}
+		if want == nil {
+			want = strings.Fields(strings.Join(scopes, " "))
+		} else {
+			want = append(want, "openid")
+		}
+		gotS := strings.Fields(got["scope"])
+		sort.Strings(want)
+		sort.Strings(gotS)
+		if strings.Join(want, " ") != strings.Join(gotS, " ") {
+			ar.Problems = append(ar.Problems, fmt.Sprintf("scope: got %q, configured %q (+openid)", got["scope"], strings.Join(scopes, " ")))
+		}
 	}
 	for k := range got {
 		switch k {
